@@ -177,6 +177,20 @@ def assocSet : List (Val × Val) → Val → Val → List (Val × Val)
 /-- `del d[k]` (keys of a dict are unique: every pair with that key goes) -/
 def assocDel (kv : List (Val × Val)) (x : Val) : List (Val × Val) := kv.filter fun p => !p.1.same x
 
+/-- `[x for x in xs if isinstance(x, BaseException) and x is not v]` -/
+def excsExcept (xs : List Val) (v : Val) : List Val :=
+  xs.filter fun x => (match x with | .exc _ _ => true | _ => false) && !x.same v
+
+/-- `[x for x in xs if isinstance(x, BaseException)]` -/
+def excsOnly (xs : List Val) : List Val := xs.filter fun x => match x with | .exc _ _ => true | _ => false
+
+/-- the comprehensions of the subset (kept apart from `builtin`: the equation compiler's budget for one `match` is finite) -/
+def builtin2 {W : Type} (f : Nat) (args : List Val) (s : St W) : R W :=
+  match f, args with
+  | 25, [.list xs, v] => .ok (.list (excsExcept xs v)) s
+  | 26, [.list xs] => .ok (.list (excsOnly xs)) s
+  | _, _ => .stuck
+
 def builtin {W : Type} (f : Nat) (args : List Val) (s : St W) : R W :=
   match f, args with
   | 0, [.list xs] => .ok (.int xs.length) s
@@ -213,7 +227,7 @@ def builtin {W : Type} (f : Nat) (args : List Val) (s : St W) : R W :=
   | 19, [.int _] => .ok (.bool true) s
   | 19, [.bool _] => .ok (.bool true) s
   | 19, [_] => .ok (.bool false) s
-  | _, _ => .stuck
+  | f, args => builtin2 f args s
 
 def cmpInt (op : Nat) (a b : Int) : Option Bool :=
   match op with
